@@ -24,8 +24,9 @@
   * `parsing.py:911-991` / `field_wrapper.py:168-217,460-533`: the namespace value goes through
     `Fields.postprocess` into the constructor arguments.
   * `parsing.py:794-909,1135-1167`: instances are built bottom-up; an `Optional[Dataclass]` wrapper whose
-    own default is None, whose `defaults` (field default / enclosing default instance) are None too and whose
-    (leaf) constructor arguments all equal their defaults yields None.
+    own default is None, whose `defaults` (field default / enclosing default instance) are None too, whose
+    (leaf) constructor arguments all equal their defaults and whose nested members are None or at their defaults
+    themselves (`_is_at_default`, recursively) yields None.
 
   Outside the model (`unmodelled`): Union *item* types (`List[Union[…]]`), a dict given for a leaf field, `_type_`
   keys, a file entry naming another file, paths the shared `parsePath` does not keep literally.  Reused fields (ALWAYS_MERGE), subgroups, `default=` instances and several
@@ -286,34 +287,37 @@ def parseLeaf (fenv : FEnv) (force : Bool) (pd : PD) (f : FieldSpec) (e : Option
 
 /-- `_fill_constructor_arguments_with_fields` + `_instantiate_dataclasses` for the wrapper of `spec`, whose
     `defaults` are `pd` and whose file defaults are `file`.  Result: the constructor arguments as an instance
-    tree, and whether every *leaf* argument equals its default. -/
+    tree, and whether the wrapper is *at its defaults* in the sense of `_create_dataclass_instance` /
+    `_is_at_default` (parsing.py): every leaf argument equals its field wrapper's default, and every nested member
+    is None or is itself at its defaults (recursively). -/
 def parseSpec (fenv : FEnv) (force : Bool) : Spec → PD → File → Out (Inst × Bool)
   | .nil, _, _ => .ok (.nil, true)
   | .leaf f rest, pd, file =>
     Out.both (fun (p : Val × Bool) (r : Inst × Bool) => (Inst.leaf f.name p.1 r.1, p.2 && r.2))
       (parseLeaf fenv force pd f (file.get f.name)) (parseSpec fenv force rest pd file)
   | .sub name cls opt dflt child rest, pd, file =>
-    let here : Out (Option Inst) :=
+    -- the member (None or an instance) and whether it is at its defaults (`_is_at_default`: None is)
+    let here : Out (Option Inst × Bool) :=
       match childPD pd name dflt with
       | none => .unmodelled "parent default attribute is not a dataclass instance"
       | some cpd =>
         match file.get name with
         | some (.obj cf) =>
           -- `wrapper.default` is the dict: the instance is always created
-          (parseSpec fenv (force || opt) child cpd cf).map (fun r => some r.1)
+          (parseSpec fenv (force || opt) child cpd cf).map (fun r => (some r.1, r.2))
         | some (.val (.sc .none)) =>
           -- `set_default(None)`: `wrapper.default is None`; an Optional wrapper whose `defaults` are all None
-          -- and whose fields are at their defaults gives None (`_create_dataclass_instance`, parsing.py:1135-1167)
+          -- and which is at its defaults gives None (`_create_dataclass_instance`)
           (parseSpec fenv (force || opt) child cpd .nil).map
-            (fun r => if opt && cpd.isNone && r.2 then none else some r.1)
+            (fun r => if opt && cpd.isNone && r.2 then (none, true) else (some r.1, r.2))
         | none =>
           (parseSpec fenv (force || opt) child cpd .nil).map
-            (fun r => if opt && cpd.isNone && r.2 then none else some r.1)
+            (fun r => if opt && cpd.isNone && r.2 then (none, true) else (some r.1, r.2))
         | some (.val _) => .unmodelled "unreachable: rejected by checkDefaults"
-    Out.both (fun (h : Option Inst) (r : Inst × Bool) =>
-        (match h with
+    Out.both (fun (h : Option Inst × Bool) (r : Inst × Bool) =>
+        (match h.1 with
          | some i => Inst.sub name cls i r.1
-         | none => Inst.subNone name r.1, r.2))
+         | none => Inst.subNone name r.1, h.2 && r.2))
       here.demote (parseSpec fenv force rest pd file)
 
 /-- `DataclassWrapper.set_default(dict)` — only what it can raise.  `names` = all field names of the class
